@@ -104,15 +104,18 @@ class LRTDP(Plans):
 
         q_values = defaultdict(lambda : dict())
         policy_dict = {}
+        # a labelled state plays the action its label certified: values of other
+        # states can still change afterwards (e.g. rise, with a heuristic that is not
+        # consistent) and move the maximiser to an action nothing has verified
+        verified = self.res.verified_action
         for s in self.res.V.keys():
-            policy_dict[s] = self.policy(mdp, s)
+            policy_dict[s] = verified[s] if s in verified else self.policy(mdp, s)
             for a in mdp.actions(s):
                 q_values[s][a] = self.Q(mdp, s, a)
-        # states labelled solved without ever being updated have no stored value;
-        # the labelling verified the first maximiser in their stored action order
+        # states labelled solved without ever being updated have no stored value
         for s in self.res.action_orders:
             if s not in policy_dict:
-                policy_dict[s] = self.policy(mdp, s)
+                policy_dict[s] = verified[s] if s in verified else self.policy(mdp, s)
         res.Q = q_values
 
         @FunctionalPolicy
@@ -153,6 +156,7 @@ class LRTDP(Plans):
         # Ghallab, Nau, Traverso: Algorithm 6.17
         self.res.V = defaultdict2(lambda s: 0 if mdp.is_absorbing(s) else heuristic(s))
         self.res.action_orders = dict()
+        self.res.verified_action = dict()
 
         # Keeping track of "labels": which states have been solved
         self.res.solved = defaultdict2(lambda s: False)
@@ -208,6 +212,7 @@ class LRTDP(Plans):
         if flag:
             for ns in closed:
                 self.res.solved[ns] = True
+                self.res.verified_action[ns] = self.policy(mdp, ns)
         else:
             while closed:
                 s = closed.pop()
